@@ -12,7 +12,11 @@ package server
 //
 // The teardown after the copy returns (close target, close stream, close the QUIC connection iff
 // the error is errDisconnect) is server.go:338-342 transcribed, because handleTCPRequest needs a
-// real *quic.Conn; the real teardown is exercised by level (b) in internal/integration_tests.
+// real *quic.Conn; the real teardown - including the EventLogger.TCPError call that sits between the copy
+// and the Close calls and reads the same err variable - is exercised and judged by level (b) in
+// internal/integration_tests in every configuration (EventLogger present / absent x veto none / Up / Down:
+// target closed, stream ended, QUIC connection closed iff vetoed), and compared there with
+// coq/model/C06_Events.v, whose tail is proved to be this teardown (C06_tail_is_relay_teardown).
 //
 // Cases with a "req" object put the request in front of the client stream: the scripted stream first
 // delivers the frame type, the address and the padding (in scripted segments) and then the payload,
